@@ -5,6 +5,7 @@ import (
 	"go/token"
 	"go/types"
 	"math/big"
+	"sort"
 	"strings"
 
 	"golang.org/x/tools/go/ssa"
@@ -420,9 +421,13 @@ func c10Provenance(c *core.Check) {
 		r.Anchor("html/layout.getClearance")
 	} else {
 		sites, _ := p.CallSitesOf(gc)
-		for i, cs := range sites {
+		sort.Slice(sites, func(i, j int) bool { return sites[i].Pos() < sites[j].Pos() })
+		perFn := map[string]int{}
+		for _, cs := range sites {
 			arg := cs.Common().Args[2]
-			key := fmt.Sprintf("%s | getClearance(…, %s) #%d", core.FuncName(cs.Parent()), exprName(arg), i+1)
+			// numbered per calling function, in source order (the order of the call graph's edges is not stable)
+			perFn[core.FuncName(cs.Parent())]++
+			key := fmt.Sprintf("%s | getClearance(…, %s) #%d", core.FuncName(cs.Parent()), exprName(arg), perFn[core.FuncName(cs.Parent())])
 			if k, ok := arg.(*ssa.Const); ok {
 				f, isF := core.ConstFloat(k)
 				r.Cond(isF && f == 0, key, p.Pos(cs.Pos()), "no margin above (constant 0)", "a non-zero constant margin")
